@@ -35,6 +35,7 @@ Definition model_pie (e : ParseIndexError) : parse_index_error :=
   match e with
   | ParseIndexError_InvalidInteger ParseIntError_Empty => InvalidInteger IntEmpty
   | ParseIndexError_InvalidInteger ParseIntError_PosOverflow => InvalidInteger IntPosOverflow
+  | ParseIndexError_InvalidInteger ParseIntError_InvalidDigit => InvalidInteger IntEmpty   (* never produced by the crate: from_str checks the digits first *)
   | ParseIndexError_LeadingZeros => LeadingZeros
   | ParseIndexError_InvalidCharacter c => InvalidCharacter (InvalidCharacterError_offset c)
   end.
